@@ -846,8 +846,10 @@ class WatParser(RecursiveDescentParser):
                 arg = make_int(self.take(), bits=32)
             elif op == ArgType.I64:
                 arg = make_int(self.take(), bits=64)
-            elif op == ArgType.F32 or op == ArgType.F64:
-                arg = make_float(self.take())
+            elif op == ArgType.F32:
+                arg = make_float(self.take(), bits=32)
+            elif op == ArgType.F64:
+                arg = make_float(self.take(), bits=64)
             elif op == ArgType.U32:
                 arg = self.take()
             elif op == "br_table":
